@@ -395,6 +395,160 @@ impl Property for RefProp {
     }
 }
 
+/// C04: every infix operator with one operand (or two of three in a chain) known while the program is
+/// read and the other known only at run time, over boundary values: the literal spelling, the spelling
+/// with the constant in a cell and the spelling with the constant bound to a name first agree. A
+/// rejection while the program is read is permitted only for a constant right operand that makes the
+/// operation fail whatever the other operand is (the documented errors).
+fn partial_constant_cases() -> Vec<Json> {
+    fn int_text(v: i64) -> String {
+        if v == i64::MIN {
+            "(-9223372036854775807 - 1)".into()
+        } else if v < 0 {
+            format!("(-{})", -(v as i128))
+        } else {
+            v.to_string()
+        }
+    }
+    fn float_text(v: f64) -> String {
+        if v.is_nan() {
+            "(0.0 / 0.0)".into()
+        } else if v.is_infinite() {
+            if v > 0.0 { "(1.0 / 0.0)".into() } else { "(-1.0 / 0.0)".into() }
+        } else if v.is_sign_negative() {
+            format!("(-{:?})", -v)
+        } else {
+            format!("{v:?}")
+        }
+    }
+    /// the documented error a constant right operand makes certain
+    fn certain(op: &str, k: i64) -> Option<&'static str> {
+        match op {
+            "/" if k == 0 => Some("ZeroDivision"),
+            "%" if k == 0 => Some("ZeroModulo"),
+            "<<" | ">>" if !(0..=63).contains(&k) => Some("OverflowShift"),
+            "**" if k < 0 => Some("NegativeExponent"),
+            _ => None,
+        }
+    }
+    let mut cases = vec![];
+    let mut push = |ty: &str, v: &str, consts: &[&str], template: &str, permitted: Vec<&'static str>| {
+        // template: {x} is the run-time operand, {0} {1} the constants
+        let fill = |how: u8| {
+            let mut decls = String::new();
+            let mut t = template.to_string();
+            for (i, k) in consts.iter().enumerate() {
+                let shown = match how {
+                    0 => k.to_string(),
+                    1 => format!("*(mut {ty} {k})"),
+                    _ => {
+                        decls += &format!("k{i} := {k}; ");
+                        format!("k{i}")
+                    }
+                };
+                t = t.replace(&format!("{{{i}}}"), &shown);
+            }
+            (decls, t)
+        };
+        for form in 0..2 {
+            let program = |how: u8| {
+                let (decls, t) = fill(how);
+                if form == 0 {
+                    format!("{decls}x := *(mut {ty} {v}); {}", t.replace("{x}", "x"))
+                } else {
+                    format!("{decls}f := (x: {ty}) -> any {{ return {}; }}; f({v})", t.replace("{x}", "x"))
+                }
+            };
+            cases.push(json!({"plain": program(0), "hidden": program(1), "partly_hidden": program(2), "expected": "", "permitted": permitted, "labels": ["partial-constant catalogue"], "counters": {}, "literals": consts.len()}));
+        }
+    };
+    let ints: [i64; 19] = [0, 1, -1, 2, -2, 3, -3, 5, -5, 7, -7, 8, -8, 63, 64, -64, i64::MAX, i64::MIN + 1, i64::MIN];
+    let consts: [i64; 15] = [0, 1, -1, 2, -2, 3, 4, -4, 8, 16, 63, 64, -64, i64::MAX, i64::MIN];
+    let int_ops = ["+", "-", "*", "/", "%", "&", "|", "^", "<<", ">>", "**", "==", "!=", "<", "<=", ">", ">="];
+    for op in int_ops {
+        for v in ints {
+            for k in consts {
+                push("int", &int_text(v), &[&int_text(k)], &format!("{{x}} {op} {{0}}"), certain(op, k).into_iter().collect());
+                push("int", &int_text(v), &[&int_text(k)], &format!("{{0}} {op} {{x}}"), vec![]);
+            }
+        }
+    }
+    // chains of operators of one level (grouping and re-association)
+    let groups: [&[&str]; 6] = [&["+", "-"], &["*", "/", "%"], &["<<", ">>"], &["&"], &["|"], &["^"]];
+    let small: [i64; 7] = [0, 1, -1, 7, -7, i64::MAX, i64::MIN];
+    let ks: [i64; 7] = [0, 1, -1, 2, 3, i64::MAX, i64::MIN];
+    for g in groups {
+        for o1 in g {
+            for o2 in g {
+                for v in small {
+                    for k1 in ks {
+                        for k2 in ks {
+                            let (a, b) = (int_text(k1), int_text(k2));
+                            let both: Vec<&'static str> = certain(o1, k1).into_iter().chain(certain(o2, k2)).collect();
+                            push("int", &int_text(v), &[&a, &b], &format!("{{x}} {o1} {{0}} {o2} {{1}}"), both);
+                            push("int", &int_text(v), &[&a, &b], &format!("{{0}} {o1} {{x}} {o2} {{1}}"), certain(o2, k2).into_iter().collect());
+                            push("int", &int_text(v), &[&a, &b], &format!("{{0}} {o1} {{1}} {o2} {{x}}"), certain(o1, k2).into_iter().collect());
+                        }
+                    }
+                }
+            }
+        }
+    }
+    let floats: [f64; 17] = [0.0, -0.0, 1.0, -1.0, 0.5, 2.0, -2.5, 0.1, 0.2, 0.3, 1e16, -1e16, 1e308, 5e-324, f64::INFINITY, f64::NEG_INFINITY, f64::NAN];
+    let fconsts: [f64; 13] = [0.0, -0.0, 1.0, -1.0, 0.5, 2.0, 3.0, 0.1, 0.2, 0.3, 1e16, -1e16, 1e308];
+    for op in ["+", "-", "*", "/", "%", "**", "==", "!=", "<", "<=", ">", ">="] {
+        for v in floats {
+            for k in fconsts {
+                push("float", &float_text(v), &[&float_text(k)], &format!("{{x}} {op} {{0}}"), vec![]);
+                push("float", &float_text(v), &[&float_text(k)], &format!("{{0}} {op} {{x}}"), vec![]);
+            }
+        }
+    }
+    let fgroups: [&[&str]; 2] = [&["+", "-"], &["*", "/"]];
+    let fsmall: [f64; 5] = [1.0, 0.1, -1e16, 1e308, -0.0];
+    let fks: [f64; 7] = [1e16, -1e16, 0.1, 0.2, 0.3, 1e308, 3.0];
+    for g in fgroups {
+        for o1 in g {
+            for o2 in g {
+                for v in fsmall {
+                    for k1 in fks {
+                        for k2 in fks {
+                            let (a, b) = (float_text(k1), float_text(k2));
+                            for t in ["{x} {o1} {0} {o2} {1}", "{0} {o1} {x} {o2} {1}", "{0} {o1} {1} {o2} {x}"] {
+                                push("float", &float_text(v), &[&a, &b], &t.replace("{o1}", o1).replace("{o2}", o2), vec![]);
+                            }
+                        }
+                    }
+                }
+            }
+        }
+    }
+    for op in ["&&", "||", "&", "|", "^", "==", "!="] {
+        for v in ["true", "false"] {
+            for k in ["true", "false"] {
+                push("bool", v, &[k], &format!("{{x}} {op} {{0}}"), vec![]);
+                push("bool", v, &[k], &format!("{{0}} {op} {{x}}"), vec![]);
+                for k2 in ["true", "false"] {
+                    push("bool", v, &[k, k2], &format!("{{x}} {op} {{0}} {op} {{1}}"), vec![]);
+                    push("bool", v, &[k, k2], &format!("{{0}} {op} {{1}} {op} {{x}}"), vec![]);
+                }
+            }
+        }
+    }
+    for (v, a, b) in [("\"x\"", "\"\"", "\"é\""), ("\"\"", "\"a\"", "\"b\"")] {
+        push("string", v, &[a, b], "{x} + {0} + {1}", vec![]);
+        push("string", v, &[a, b], "{0} + {x} + {1}", vec![]);
+        push("string", v, &[a, b], "{0} + {1} + {x}", vec![]);
+        push("string", v, &[a], "{x} == {0}", vec![]);
+    }
+    for (v, a, b) in [("[1]", "[]", "[2, 3]"), ("[0; 0]", "[4]", "[]")] {
+        push("[int]", v, &[a, b], "{x} + {0} + {1}", vec![]);
+        push("[int]", v, &[a, b], "{0} + {x} + {1}", vec![]);
+        push("[int]", v, &[a, b], "{0} + {1} + {x}", vec![]);
+    }
+    cases
+}
+
 /// C06: every construct that binds a name locally (match arm, if-set, while-set, for, block, function
 /// parameter, module, closure, destructuring inside a block) between a declaration of the same name
 /// and a later use of it, in function bodies, at the top level and in modules
@@ -632,6 +786,11 @@ pub fn run(session: &Session, prop: &'static RefProp, rule: &str) -> i32 {
             }
         }
         session.set_extra("twin_catalogue_cases", json!(cases.len()));
+        session.run_enum(prop, cases);
+    }
+    if prop.id == "C04" && !session.stopped() {
+        let cases = partial_constant_cases();
+        session.set_extra("partial_constant_cases", json!(cases.len()));
         session.run_enum(prop, cases);
     }
     if prop.id == "C06" && !session.stopped() {
